@@ -1,7 +1,664 @@
-//! C03 — not built yet.
-use lv_common::Ctx;
+//! C03 — Commit verification enforces the voting-power thresholds.
+//!
+//! Code under test: `ValidatorSetExt::{verify_commit_light, verify_commit_light_trusting}` and
+//! `TrustLevelRatio::voting_power_needed` (reached directly through the cfg-guarded re-export of
+//! `ValidatorSetExt`, which otherwise sits in a private module).
+//! Oracle: `lv_gen::hdrref` — u128 tallies over signatures checked with ed25519-consensus against the
+//! hand-encoded canonical vote.
+use celestia_types::trust_level::{DEFAULT_TRUST_LEVEL, TrustLevelRatio};
+use celestia_types::{ValidatorSet, ValidatorSetExt};
+use ed25519_consensus::SigningKey;
+use lv_common::Prng;
+use lv_common::prelude::*;
+use lv_gen::chain::{build_set, canonical_vote_bytes, hash_bytes, key_for, time_parts, val_info};
+use lv_gen::hdrref::{
+    Prepared, Slot, light_entry_valid, light_well_formed, nil_vote_bytes, prepare, ref_light_power, ref_light_power_before,
+    ref_trusting_power, sum_power, trusting_well_formed,
+};
+use lv_gen::refs::sha256;
+use tendermint::block::{Commit, CommitSig, Id as BlockId, parts};
+use tendermint::hash::Hash;
+use tendermint::{Signature, account, chain};
 
-pub fn run(_ctx: &mut Ctx) {
-    eprintln!("C03: check not built yet");
-    std::process::exit(2);
+#[derive(Clone, Debug, Serialize, Deserialize)]
+pub enum Powers {
+    Equal { n: u8, p: u64 },
+    Geometric { n: u8, base: u8, first: u64 },
+    Random(Vec<u64>),
+    /// group A (powers `a`) and group B (|b_split|+1 members) with ΣB = 2·ΣA + eps: the A-subset sits on the
+    /// 1/3 boundary and the B-subset on the 2/3 boundary (eps = 0 exact, ±1 one unit either side)
+    Engineered { a: Vec<u64>, b_split: Vec<u16>, eps: i8 },
+    /// struct-literal set whose total is just below i64::MAX (above tendermint's MAX_TOTAL_VOTING_POWER,
+    /// which `Set::new` refuses): the tally arithmetic must give a verdict, not panic
+    Huge { n: u8, skew: Vec<u16> },
+}
+
+#[derive(Clone, Copy, Debug, Serialize, Deserialize)]
+pub enum ForgeKind {
+    Random,
+    OtherKey,
+    OtherHeight,
+    OtherChain,
+    OtherTimestamp,
+    NilSigAsCommit,
+    BitFlip(u16),
+}
+
+#[derive(Clone, Debug, Serialize, Deserialize)]
+pub enum Fault {
+    /// entry `pos` becomes a Commit-flagged entry of validator `pos` carrying a forged signature
+    Forge { pos: u16, kind: ForgeKind },
+    /// verify_commit_light called for a height other than the commit's
+    WrongHeight { delta: i8 },
+    DropLast,
+    AppendExtra,
+    /// entry `dst` := copy of entry `src` (same address, same valid signature)
+    Dup { src: u16, dst: u16 },
+    /// entry `pos` keeps its valid signature but names an address outside the set
+    Unknown { pos: u16 },
+    Swap { i: u16, j: u16 },
+}
+
+#[derive(Clone, Debug, Serialize, Deserialize)]
+pub struct TrustedPlan {
+    pub keep_mask: u16,
+    pub powers: Vec<u64>,
+    pub extra: Vec<u64>,
+}
+
+#[derive(Clone, Debug, Serialize, Deserialize)]
+pub struct Case {
+    pub seed: u64,
+    pub powers: Powers,
+    pub chain_id: String,
+    pub height: u64,
+    pub round: u8,
+    /// what a non-signer's entry looks like, per validator: 0 Absent, 1 proper nil vote, 2 Nil flag on a block signature
+    pub nil_kinds: Vec<u8>,
+    /// sampled signer subsets (used for n >= 8 and for fault application)
+    pub masks: Vec<u16>,
+    pub faults: Vec<Fault>,
+    pub trusted: Vec<TrustedPlan>,
+}
+
+fn power_small() -> impl Strategy<Value = u64> {
+    prop_oneof![3 => 1u64..=4, 2 => 1u64..=100, 1 => 1u64..=(1u64 << 40)]
+}
+
+fn powers_strategy(max_n: u8) -> impl Strategy<Value = Powers> {
+    prop_oneof![
+        3 => (1u8..=max_n, prop_oneof![Just(1u64), 1u64..=1000, 1u64..=(1u64 << 40)]).prop_map(|(n, p)| Powers::Equal { n, p }),
+        2 => (1u8..=max_n, 2u8..=3, 1u64..=5).prop_map(|(n, base, first)| Powers::Geometric { n, base, first }),
+        4 => prop::collection::vec(power_small(), 1..=(max_n as usize)).prop_map(Powers::Random),
+        4 => (prop::collection::vec(power_small(), 1..=3), prop::collection::vec(any::<u16>(), 0..=3), -1i8..=1)
+            .prop_map(|(a, b_split, eps)| Powers::Engineered { a, b_split, eps }),
+        1 => (1u8..=max_n, prop::collection::vec(any::<u16>(), 0..=10)).prop_map(|(n, skew)| Powers::Huge { n, skew }),
+    ]
+}
+
+fn forge_kind() -> impl Strategy<Value = ForgeKind> {
+    prop_oneof![
+        Just(ForgeKind::Random),
+        Just(ForgeKind::OtherKey),
+        Just(ForgeKind::OtherHeight),
+        Just(ForgeKind::OtherChain),
+        Just(ForgeKind::OtherTimestamp),
+        Just(ForgeKind::NilSigAsCommit),
+        (0u16..512).prop_map(ForgeKind::BitFlip),
+    ]
+}
+
+fn fault_strategy() -> impl Strategy<Value = Fault> {
+    prop_oneof![
+        5 => (any::<u16>(), forge_kind()).prop_map(|(pos, kind)| Fault::Forge { pos, kind }),
+        1 => prop_oneof![Just(-1i8), Just(1i8), Just(7i8)].prop_map(|delta| Fault::WrongHeight { delta }),
+        1 => Just(Fault::DropLast),
+        1 => Just(Fault::AppendExtra),
+        3 => (any::<u16>(), any::<u16>()).prop_map(|(src, dst)| Fault::Dup { src, dst }),
+        1 => any::<u16>().prop_map(|pos| Fault::Unknown { pos }),
+        1 => (any::<u16>(), any::<u16>()).prop_map(|(i, j)| Fault::Swap { i, j }),
+    ]
+}
+
+fn case_strategy(max_n: u8) -> impl Strategy<Value = Case> {
+    (
+        any::<u64>(),
+        powers_strategy(max_n),
+        lv_gen::chain::chain_id_strategy(),
+        prop_oneof![Just(1u64), 2u64..100_000, (1u64 << 40)..(1u64 << 41)],
+        0u8..3,
+        prop::collection::vec(0u8..3, 10),
+        prop::collection::vec(any::<u16>(), 24),
+        prop::collection::vec(fault_strategy(), 4..=8),
+        prop::collection::vec(
+            (any::<u16>(), prop::collection::vec(power_small(), 10), prop::collection::vec(power_small(), 0..=3))
+                .prop_map(|(keep_mask, powers, extra)| TrustedPlan { keep_mask, powers, extra }),
+            1..=3,
+        ),
+    )
+        .prop_map(|(seed, powers, chain_id, height, round, nil_kinds, masks, faults, trusted)| Case {
+            seed,
+            powers,
+            chain_id,
+            height,
+            round,
+            nil_kinds,
+            masks,
+            faults,
+            trusted,
+        })
+}
+
+/// (set, keys aligned with set order, key index of each validator in set order)
+fn build(case: &Case) -> (ValidatorSet, Vec<SigningKey>, Vec<u8>) {
+    let members: Vec<(u8, u64)> = match &case.powers {
+        Powers::Equal { n, p } => (0..*n).map(|i| (i, *p)).collect(),
+        Powers::Geometric { n, base, first } => {
+            (0..*n).map(|i| (i, first.saturating_mul((*base as u64).pow(i as u32)).min(1 << 50))).collect()
+        }
+        Powers::Random(v) => v.iter().enumerate().map(|(i, p)| (i as u8, *p)).collect(),
+        Powers::Engineered { a, b_split, eps } => {
+            let s: u64 = a.iter().sum();
+            let mut nb = b_split.len() as u64 + 1;
+            let btotal = (2 * s as i128 + *eps as i128).max(1) as u64;
+            nb = nb.min(btotal);
+            let mut b = vec![1u64; nb as usize];
+            let mut rem = btotal - nb;
+            for (j, sel) in b_split.iter().enumerate().take(nb as usize - 1) {
+                let take = pick(*sel, rem as usize + 1) as u64;
+                b[j] += take;
+                rem -= take;
+            }
+            *b.last_mut().unwrap() += rem;
+            a.iter().chain(b.iter()).enumerate().map(|(i, p)| (i as u8, *p)).collect()
+        }
+        Powers::Huge { n, skew } => {
+            let n = (*n).max(1) as u64;
+            let infos: Vec<_> = (0..n)
+                .map(|i| {
+                    let p = (i64::MAX as u64) / n - skew.get(i as usize).copied().unwrap_or(0) as u64;
+                    val_info(&key_for(case.seed, i as u8), p)
+                })
+                .collect();
+            let total: u64 = infos.iter().map(|v| v.power()).sum();
+            let keys = (0..n).map(|i| key_for(case.seed, i as u8)).collect();
+            let set = ValidatorSet {
+                proposer: Some(infos[0].clone()),
+                validators: infos,
+                total_voting_power: total.try_into().expect("total below i64::MAX"),
+            };
+            return (set, keys, (0..n as u8).collect());
+        }
+    };
+    let (set, keys) = build_set(case.seed, &members);
+    let idx = set
+        .validators()
+        .iter()
+        .map(|v| members.iter().find(|(i, _)| lv_gen::chain::address_of(&key_for(case.seed, *i)) == v.address).unwrap().0)
+        .collect();
+    (set, keys, idx)
+}
+
+fn block_id(seed: u64) -> BlockId {
+    let sb = seed.to_le_bytes();
+    BlockId {
+        hash: Hash::Sha256(sha256(&[b"c03-block", &sb])),
+        part_set_header: parts::Header::new(1, Hash::Sha256(sha256(&[b"c03-parts", &sb]))).unwrap(),
+    }
+}
+
+fn slots_for(case: &Case, n: usize, mask: u32) -> Vec<Slot> {
+    (0..n)
+        .map(|i| {
+            if mask >> i & 1 == 1 {
+                Slot::Commit
+            } else {
+                match case.nil_kinds.get(i).copied().unwrap_or(0) {
+                    0 => Slot::Absent,
+                    1 => Slot::NilProper,
+                    _ => Slot::NilBlockSig,
+                }
+            }
+        })
+        .collect()
+}
+
+fn sig_of(b: [u8; 64]) -> Signature {
+    Signature::new(b).unwrap().unwrap()
+}
+
+struct World<'a> {
+    case: &'a Case,
+    set: ValidatorSet,
+    keys: Vec<SigningKey>,
+    chain_id: chain::Id,
+    prep: Prepared,
+    total: u128,
+}
+
+/// Judge one (set, commit) for the light rule. `height_arg` is the height verification is asked for.
+fn judge_light(obs: &mut Obs, w: &World, commit: &Commit, height_arg: u64, what: &str) -> Result<(), Failure> {
+    let cid = w.chain_id.as_str();
+    let res = w.set.verify_commit_light(&w.chain_id, &height_arg.try_into().unwrap(), commit);
+    let p = ref_light_power(&w.set, cid, commit);
+    let enough = 3 * p > 2 * w.total;
+    if res.is_ok() {
+        obs.check(enough, "C03:light-accepted-below-two-thirds", || {
+            format!("verify_commit_light Ok ({what}) but valid Commit power {p} of total {} is not > 2/3; commit={commit:?}", w.total)
+        })?;
+        obs.check(height_arg == commit.height.value(), "C03:light-accepted-wrong-height", || {
+            format!("verify_commit_light Ok ({what}) for height {height_arg} with a commit for height {}", commit.height)
+        })?;
+    } else if height_arg == commit.height.value() && light_well_formed(&w.set, cid, commit) {
+        obs.check(!enough, "C03:light-rejected-above-two-thirds", || {
+            format!(
+                "verify_commit_light Err({}) ({what}) on a well-formed commit whose signing power {p} exceeds 2/3 of {}",
+                res.as_ref().unwrap_err(),
+                w.total
+            )
+        })?;
+    }
+    Ok(())
+}
+
+fn judge_trusting(obs: &mut Obs, trusted: &ValidatorSet, w: &World, commit: &Commit, what: &str) -> Result<bool, Failure> {
+    let cid = w.chain_id.as_str();
+    let res = trusted.verify_commit_light_trusting(&w.chain_id, commit, DEFAULT_TRUST_LEVEL);
+    let p = ref_trusting_power(trusted, cid, commit);
+    let t = sum_power(trusted);
+    let enough = 3 * p > t;
+    if res.is_ok() {
+        obs.check(enough, "C03:trusting-accepted-below-one-third", || {
+            format!(
+                "verify_commit_light_trusting Ok ({what}) but distinct trusted validators with valid signatures carry {p} of {t}, not > 1/3; commit={commit:?}"
+            )
+        })?;
+    } else if trusting_well_formed(trusted, cid, commit) {
+        obs.check(!enough, "C03:trusting-rejected-above-one-third", || {
+            format!(
+                "verify_commit_light_trusting Err({}) ({what}) on a well-formed commit whose trusted signing power {p} exceeds 1/3 of {t}",
+                res.as_ref().unwrap_err()
+            )
+        })?;
+    }
+    Ok(res.is_ok())
+}
+
+fn boundary_labels(obs: &mut Obs, p: u128, t: u128) -> bool {
+    let mut near = false;
+    let need23 = 2 * t / 3;
+    let need13 = t / 3;
+    if 3 * p == 2 * t {
+        obs.label("light-exact-two-thirds");
+    }
+    if p == need23 {
+        obs.label("light-boundary-reject");
+        near = true;
+    }
+    if p == need23 + 1 {
+        obs.label("light-boundary-accept");
+        near = true;
+    }
+    if 3 * p == t {
+        obs.label("trust-exact-third");
+    }
+    if p == need13 {
+        obs.label("trust-boundary-reject");
+        near = true;
+    }
+    if p == need13 + 1 {
+        obs.label("trust-boundary-accept");
+        near = true;
+    }
+    near
+}
+
+fn apply_fault(w: &World, commit: &mut Commit, f: &Fault, salt: u64) -> (&'static str, u64) {
+    let case = w.case;
+    let n = commit.signatures.len();
+    let mut height_arg = commit.height.value();
+    let label: &'static str;
+    match f {
+        Fault::Forge { pos, kind } => {
+            let i = pick(*pos, n);
+            let v = &w.set.validators()[i];
+            // keep the entry's timestamp when it has one
+            let timestamp = match &w.prep.commit[i] {
+                CommitSig::BlockIdFlagCommit { timestamp, .. } => *timestamp,
+                _ => unreachable!(),
+            };
+            let (ts, tn) = time_parts(timestamp);
+            let b = &w.prep.block_id;
+            let bytes = |chain: &str, h: u64, ts: i64| {
+                canonical_vote_bytes(
+                    chain,
+                    h,
+                    w.prep.round,
+                    hash_bytes(&b.hash),
+                    b.part_set_header.total,
+                    hash_bytes(&b.part_set_header.hash),
+                    ts,
+                    tn,
+                )
+            };
+            let good = bytes(&w.prep.chain_id, w.prep.height, ts);
+            let sig: [u8; 64] = match kind {
+                ForgeKind::Random => Prng::new(case.seed ^ salt ^ i as u64).array::<64>(),
+                ForgeKind::OtherKey => key_for(case.seed ^ 0xbad, 99).sign(&good).to_bytes(),
+                ForgeKind::OtherHeight => w.keys[i].sign(&bytes(&w.prep.chain_id, w.prep.height + 1, ts)).to_bytes(),
+                ForgeKind::OtherChain => w.keys[i].sign(&bytes("other-chain", w.prep.height, ts)).to_bytes(),
+                ForgeKind::OtherTimestamp => w.keys[i].sign(&bytes(&w.prep.chain_id, w.prep.height, ts + 1)).to_bytes(),
+                ForgeKind::NilSigAsCommit => {
+                    w.keys[i].sign(&nil_vote_bytes(&w.prep.chain_id, w.prep.height, w.prep.round, ts, tn)).to_bytes()
+                }
+                ForgeKind::BitFlip(bit) => {
+                    let mut s = w.keys[i].sign(&good).to_bytes();
+                    s[(*bit as usize / 8) % 64] ^= 1 << (bit % 8);
+                    s
+                }
+            };
+            commit.signatures[i] = CommitSig::BlockIdFlagCommit {
+                validator_address: v.address,
+                timestamp,
+                signature: Some(sig_of(sig)),
+            };
+            label = "fault-forged-signature";
+        }
+        Fault::WrongHeight { delta } => {
+            height_arg = (height_arg as i128 + *delta as i128).max(1) as u64;
+            if height_arg == commit.height.value() {
+                height_arg += 1;
+            }
+            label = "fault-wrong-height";
+        }
+        Fault::DropLast => {
+            commit.signatures.pop();
+            label = "fault-sig-count";
+        }
+        Fault::AppendExtra => {
+            let last = commit.signatures.last().cloned().unwrap_or(CommitSig::BlockIdFlagAbsent);
+            commit.signatures.push(last);
+            label = "fault-sig-count";
+        }
+        Fault::Dup { src, dst } => {
+            let (s, d) = (pick(*src, n), pick(*dst, n));
+            commit.signatures[d] = commit.signatures[s].clone();
+            label = "fault-dup-address";
+        }
+        Fault::Unknown { pos } => {
+            let i = pick(*pos, n);
+            let foreign = lv_gen::chain::address_of(&key_for(case.seed ^ 0x0dd, 77));
+            if let CommitSig::BlockIdFlagCommit { validator_address, .. } | CommitSig::BlockIdFlagNil { validator_address, .. } =
+                &mut commit.signatures[i]
+            {
+                *validator_address = foreign;
+            }
+            label = "fault-unknown-address";
+        }
+        Fault::Swap { i, j } => {
+            let (a, b) = (pick(*i, n), pick(*j, n));
+            commit.signatures.swap(a, b);
+            label = "fault-reordered";
+        }
+    }
+    (label, height_arg)
+}
+
+fn has_dup_commit_address(commit: &Commit) -> bool {
+    let mut seen: Vec<account::Id> = Vec::new();
+    for s in &commit.signatures {
+        if let CommitSig::BlockIdFlagCommit { validator_address, .. } = s {
+            if seen.contains(validator_address) {
+                return true;
+            }
+            seen.push(*validator_address);
+        }
+    }
+    false
+}
+
+fn run_case(case: &Case, obs: &mut Obs) -> Result<(), Failure> {
+    let (set, keys, key_idx) = build(case);
+    let n = set.validators().len();
+    let chain_id: chain::Id = case.chain_id.clone().try_into().map_err(|e| Failure::new("gen", format!("chain id: {e}")))?;
+    let prep = prepare(&set, &keys, &case.chain_id, case.height, case.round as u32, block_id(case.seed), 1_700_000_000 + (case.seed % 1000) as i64);
+    let total = sum_power(&set);
+    if total != set.total_voting_power().value() as u128 {
+        return Err(Failure::new("gen", "inconsistent total"));
+    }
+    let w = World {
+        case,
+        set,
+        keys,
+        chain_id,
+        prep,
+        total,
+    };
+    let set = &w.set;
+    match &case.powers {
+        Powers::Huge { .. } => obs.label("huge-powers"),
+        Powers::Engineered { .. } => obs.label("engineered-powers"),
+        _ => {}
+    }
+    if n > 1 {
+        obs.label("multi-validator");
+    }
+    // independent validity of every prepared Commit entry (checked once; entries are reused across subsets)
+    let full = w.prep.assemble(&vec![Slot::Commit; n]);
+    for i in 0..n {
+        if !light_entry_valid(set, &case.chain_id, &full, i) {
+            return Err(Failure::new("gen", format!("prepared entry {i} not valid under the reference")));
+        }
+    }
+    let all_subsets = n <= 7 || obs.tier == Tier::Thorough;
+    let masks: Vec<u32> = if all_subsets {
+        (0..(1u32 << n)).collect()
+    } else {
+        let m = (1u32 << n) - 1;
+        let mut v: Vec<u32> = case.masks.iter().map(|x| (*x as u32 * 0x9e37) & m).chain([0, m]).collect();
+        v.sort();
+        v.dedup();
+        v
+    };
+    if all_subsets {
+        obs.label("all-subsets-enumerated");
+    }
+    let pw: Vec<u128> = set.validators().iter().map(|v| v.power() as u128).collect();
+    // ---------------- honest commits for every signer subset
+    for &mask in &masks {
+        let slots = slots_for(case, n, mask);
+        let commit = w.prep.assemble(&slots);
+        let p: u128 = (0..n).filter(|i| mask >> i & 1 == 1).map(|i| pw[i]).sum();
+        let mut lobs_near = boundary_labels(obs, p, total);
+        if slots.iter().any(|s| matches!(s, Slot::NilProper | Slot::NilBlockSig)) {
+            obs.label("nil-vote-present");
+        }
+        // light, right height — exact
+        let res = set.verify_commit_light(&w.chain_id, &case.height.try_into().unwrap(), &commit);
+        let enough = 3 * p > 2 * total;
+        if res.is_ok() != enough {
+            lobs_near = true;
+            let sig = if res.is_ok() { "C03:light-accepted-below-two-thirds" } else { "C03:light-rejected-above-two-thirds" };
+            obs.fail(
+                sig,
+                format!(
+                    "powers {pw:?} (total {total}), signer mask {mask:#b}, non-signers {:?}: signing power {p}; verify_commit_light -> {:?}, reference says accept={enough}",
+                    slots, res.as_ref().map_err(|e| e.to_string())
+                ),
+            )?;
+        }
+        // trusting against the same set — exact
+        let rt = set.verify_commit_light_trusting(&w.chain_id, &commit, DEFAULT_TRUST_LEVEL);
+        let enough13 = 3 * p > total;
+        if rt.is_ok() != enough13 {
+            let sig = if rt.is_ok() { "C03:trusting-accepted-below-one-third" } else { "C03:trusting-rejected-above-one-third" };
+            obs.fail(
+                sig,
+                format!(
+                    "powers {pw:?} (total {total}), signer mask {mask:#b}, non-signers {:?}: signing power {p}; verify_commit_light_trusting -> {:?}, reference says accept={enough13}",
+                    slots, rt.as_ref().map_err(|e| e.to_string())
+                ),
+            )?;
+        }
+        obs.label(if enough { "light-accept" } else { "light-reject" });
+        obs.label(if enough13 { "trust-accept" } else { "trust-reject" });
+        let d = digest_of(&(&pw, mask, &slots, case.height, case.round));
+        obs.eval(lobs_near.then_some(d));
+        obs.eval(lobs_near.then_some(d ^ 1));
+    }
+    // ---------------- trusting against a different trusted set (partial overlap, other powers)
+    let tmasks: Vec<u32> = if n <= 5 { masks.clone() } else { masks.iter().copied().take(24).collect() };
+    for (ti, plan) in case.trusted.iter().enumerate() {
+        let mut members: Vec<(u8, u64)> = Vec::new();
+        for i in 0..n {
+            if plan.keep_mask >> i & 1 == 1 {
+                members.push((key_idx[i], plan.powers[i % plan.powers.len()]));
+            }
+        }
+        for (j, p) in plan.extra.iter().enumerate() {
+            members.push((100 + j as u8, *p));
+        }
+        if members.is_empty() {
+            continue;
+        }
+        let kept = members.iter().filter(|(i, _)| *i < 100).count();
+        let (tset, _) = build_set(case.seed, &members);
+        obs.label(if kept == 0 {
+            "trusted-set-overlap-none"
+        } else if kept == n && plan.extra.is_empty() {
+            "trusted-set-overlap-all"
+        } else {
+            "trusted-set-overlap-partial"
+        });
+        let tt = sum_power(&tset);
+        for &mask in &tmasks {
+            let commit = w.prep.assemble(&slots_for(case, n, mask));
+            let ok = judge_trusting(obs, &tset, &w, &commit, "other trusted set")?;
+            let p = ref_trusting_power(&tset, &case.chain_id, &commit);
+            let mut near = false;
+            if 3 * p == tt {
+                obs.label("trust-exact-third");
+            }
+            if p == tt / 3 {
+                obs.label("trust-boundary-reject");
+                near = true;
+            }
+            if p == tt / 3 + 1 {
+                obs.label("trust-boundary-accept");
+                near = true;
+            }
+            obs.label(if ok { "trust-accept" } else { "trust-reject" });
+            obs.eval(near.then(|| digest_of(&(&pw, mask, ti, &members, case.seed))));
+        }
+    }
+    // ---------------- faults
+    let m = (1u32 << n) - 1;
+    let mut fmasks: Vec<u32> = case.masks.iter().take(5).map(|x| (*x as u32 * 0x9e37) & m).chain([m, 0]).collect();
+    fmasks.extend((0..n).map(|i| 1u32 << i));
+    fmasks.sort();
+    fmasks.dedup();
+    for (fi, f) in case.faults.iter().enumerate() {
+        for &mask in &fmasks {
+            let mut commit = w.prep.assemble(&slots_for(case, n, mask));
+            let before = commit.clone();
+            let (label, height_arg) = apply_fault(&w, &mut commit, f, fi as u64);
+            if commit == before && height_arg == commit.height.value() {
+                obs.label("fault-noop");
+                continue;
+            }
+            obs.label(label);
+            if let Fault::Forge { pos, .. } = f {
+                let i = pick(*pos, n);
+                let before_i = ref_light_power_before(set, &case.chain_id, &commit, i);
+                obs.label(if 3 * before_i > 2 * total { "forged-after-quorum" } else { "forged-before-quorum" });
+            }
+            if has_dup_commit_address(&commit) {
+                obs.label("dup-address");
+            }
+            judge_light(obs, &w, &commit, height_arg, label)?;
+            judge_trusting(obs, set, &w, &commit, label)?;
+            let d = digest_of(&(&pw, mask, fi, &commit.signatures, height_arg));
+            obs.eval(Some(d));
+            obs.eval(Some(d ^ 1));
+            if let Some(plan) = case.trusted.first() {
+                // same faulty commit judged by a partially overlapping trusted set
+                let members: Vec<(u8, u64)> = (0..n)
+                    .filter(|i| plan.keep_mask >> i & 1 == 1)
+                    .map(|i| (key_idx[i], plan.powers[i % plan.powers.len()]))
+                    .chain(plan.extra.iter().enumerate().map(|(j, p)| (100 + j as u8, *p)))
+                    .collect();
+                if !members.is_empty() {
+                    let (tset, _) = build_set(case.seed, &members);
+                    judge_trusting(obs, &tset, &w, &commit, label)?;
+                    obs.eval(Some(d ^ 2));
+                }
+            }
+        }
+    }
+    Ok(())
+}
+
+pub fn run(ctx: &mut Ctx) {
+    ctx.assume("ed25519-consensus signature verification and tendermint's validator-set ordering/addresses are the trusted base; sign-bytes come from lv_gen's hand-written canonical-vote encoder");
+    ctx.assume("validator sets are internally consistent (total_voting_power = sum of member powers), as every decoded or Set::new-built set is; totals above tendermint's MAX_TOTAL_VOTING_POWER are built by struct literal and stay below i64::MAX");
+    ctx.assume("ValidatorSetExt is reached through a cfg(eigerco_lumina_verif) re-export (the trait sits in a private module of celestia-types)");
+    ctx.essential(&[
+        "light-exact-two-thirds",
+        "light-boundary-reject",
+        "light-boundary-accept",
+        "trust-exact-third",
+        "trust-boundary-reject",
+        "trust-boundary-accept",
+        "dup-address",
+        "forged-before-quorum",
+        "forged-after-quorum",
+        "nil-vote-present",
+        "huge-powers",
+        "trusted-set-overlap-partial",
+        "all-subsets-enumerated",
+    ]);
+    let max_n = 10u8;
+    let cases = ctx.tier.pick(960, 10000);
+    ctx.proptest(
+        "commits",
+        "per generated validator set (1..10 members; equal / geometric / random<=2^40 / boundary-engineered / near-i64::MAX powers): every signer subset (n<=7; sampled for n=8..10 in quick, all in thorough) as an honest commit (non-signers Absent, proper nil vote, or Nil flag on a block signature) judged for the light rule (exact: Ok iff 3*signing > 2*total) and the trusting rule against the same set (exact: Ok iff 3*signing > total); the same commits against other trusted sets (overlap none/partial/all, other powers); fault commits (forged signature of 7 kinds, wrong height, signature-count mismatch, duplicated entry, unknown address, reordered entries): Ok => reference tally above threshold (and right height), Err on a well-formed commit => reference tally not above. Non-trivial = signing power equal to floor(threshold) or floor(threshold)+1 for either threshold, or any fault case; distinct by (powers, subset, entries)",
+        cases,
+        move || case_strategy(max_n),
+        run_case,
+    );
+    ctx.proptest(
+        "needed",
+        "TrustLevelRatio::voting_power_needed(total) for generated numerator/denominator/total (boundary-biased, up to u64::MAX): Ok(v) iff denominator != 0 and numerator*total fits u64, and then v = floor(numerator*total/denominator) computed in u128; never panics. Non-trivial = overflow, zero denominator, or a non-integral quotient",
+        ctx.tier.pick(20_000, 400_000),
+        || {
+            let edge = || {
+                prop_oneof![
+                    3 => 0u64..=10,
+                    2 => any::<u64>(),
+                    1 => Just(u64::MAX),
+                    1 => Just(i64::MAX as u64),
+                    1 => Just(u64::MAX / 2),
+                    1 => Just(u64::MAX / 3 + 1),
+                    1 => Just(u64::MAX / 3),
+                    1 => (0u32..64).prop_map(|s| 1u64 << s),
+                ]
+            };
+            (edge(), edge(), edge())
+        },
+        |(num, den, total), obs| {
+            let r = TrustLevelRatio::new(*num, *den).voting_power_needed(*total);
+            let prod = *num as u128 * *total as u128;
+            let expect = if *den == 0 || prod > u64::MAX as u128 { None } else { Some((prod / *den as u128) as u64) };
+            let nontrivial = expect.is_none() || prod % (*den as u128) != 0;
+            obs.eval(nontrivial.then(|| digest_of(&(num, den, total))));
+            obs.label(match (&r, *den == 0) {
+                (Ok(_), _) => "needed-ok",
+                (Err(_), true) => "needed-zero-denominator",
+                (Err(_), false) => "needed-overflow",
+            });
+            obs.check(r.as_ref().ok().copied() == expect, "C03:voting-power-needed-wrong", || {
+                format!("TrustLevelRatio({num}/{den}).voting_power_needed({total}) = {r:?}, reference {expect:?}")
+            })
+        },
+    );
 }
